@@ -938,6 +938,8 @@ def builtin_method(pe, obj, name, args, kwargs):
     if isinstance(obj, Arr):
         if name == "copy":
             return obj.copy()
+        if name == "tobytes":
+            return ("bytes-of", tuple(obj.shape), tuple(pe.hashable(v) for v in obj.flat()))     # equal arrays give equal tokens
         if name == "tolist":
             return obj.tolist()
         if name == "item":
@@ -1083,6 +1085,8 @@ def builtin_method(pe, obj, name, args, kwargs):
             r = getattr(obj, name)(*[pe.to_py(a) if not isinstance(a, (str, tuple)) else a for a in args])
             return list(r) if isinstance(r, list) else r
     if isinstance(obj, (Node, Fraction, int)):
+        if name == "tobytes":
+            return ("bytes-of", (), (pe.hashable(obj),))
         if name == "conjugate":
             return pe.s_unary("conj", obj) if isinstance(obj, Node) else obj
         if name == "item":
